@@ -522,7 +522,17 @@ def int_like(e):
 
 
 def expected_type_is_int(dataset):
-    return all(int_like(e) for r in dataset for b in r for e in b)
+    """every name is integer-like AND no two different names are read as the same integer ("07" and "7" next to each other
+    stay the two strings they are: converting them would merge two elements)"""
+    names = {}
+    for r in dataset:
+        for b in r:
+            for e in b:
+                if not int_like(e):
+                    return False
+                if names.setdefault(int(e), str(e)) != str(e):
+                    return False
+    return True
 
 
 # ---------------------------------------------------------------------------------------------
